@@ -19,14 +19,9 @@ def lane(u, names):
     return dict(zip(names, u))
 
 
-def run(chk):
-    facts = F.load("dbg")
-    cm = CubeModel(facts)
-    chk.trust("rustc MIR construction; lemma: for canonical cubes, literal-set containment is implication and a contradictory lane means the empty set of assignments")
-    chk.assume("cubes are built through the public API (fields private), hence canonical (C12.Z)")
-    chk.add("C12.O", "Cube fields are private", PROVED if cm.private else REFUTED, "")
-    nc = lambda prefix: (lambda d: not (d[prefix + ".P"] and d[prefix + ".N"]))
-    # ------------------------------------------------------------------ value
+def cube_value_rule(chk, facts, cm, rule):
+    """Cube::value(m) is the conjunction of the cube's literals under m (all cubes at once, lane abstraction), and
+    the canonical zero cube is false everywhere.  Shared by C12 (cube algebra) and C16 (printed text versus value)."""
     b = cm.method("value")
     for case in ("sym", "zero"):
         key = "Cube::value a=%s" % case
@@ -44,7 +39,17 @@ def run(chk):
             v, d = decide_bool(outs, names, U, spec)
         except Undecided as e:
             v, d = UNDECIDED, e.cause
-        chk.add("C12.L", key, v, d, where=where_of(b), sample=dict(obligation=key, lanes=NL, lane_values=len(U), verdict=v))
+        chk.add(rule, key, v, d, where=where_of(b), sample=dict(obligation=key, lanes=NL, lane_values=len(U), verdict=v))
+
+
+def run(chk):
+    facts = F.load("dbg")
+    cm = CubeModel(facts)
+    chk.trust("rustc MIR construction; lemma: for canonical cubes, literal-set containment is implication and a contradictory lane means the empty set of assignments")
+    chk.assume("cubes are built through the public API (fields private), hence canonical (C12.Z)")
+    chk.add("C12.O", "Cube fields are private", PROVED if cm.private else REFUTED, "")
+    nc = lambda prefix: (lambda d: not (d[prefix + ".P"] and d[prefix + ".N"]))
+    cube_value_rule(chk, facts, cm, "C12.L")
     # ------------------------------------------------------------------ unary predicates
     for mname, spec_sym, spec_zero in (("is_zero", lambda S: False, True), ("is_one", lambda S: all(not u[0] and not u[1] for u in S), False),
                                        ("is_constant", lambda S: all(not u[0] and not u[1] for u in S), True)):
